@@ -164,6 +164,9 @@ def _variant(name, direction, ring):
     attrs["params"] = {"seq": Str, "direction": Const(direction), "offset": Int, "minimum_length": Int,
                        "record_length": Int if ring else Const(None)}
     attrs["variant"] = name != "ScanOrfsForwardLinear"
+    if ring:
+        # modulus by the symbolic record length: minutes of solver time, and luck-dependent (see prove_timeout_s)
+        attrs["tiers"] = ("thorough",)
 
     cls = type(name, (), attrs)
     return contract(f"{FILE}::scan_orfs", props=["C15"])(cls)
